@@ -1,4 +1,4 @@
-import Pcore.Proofs.LatInfer
+import Pcore.Proofs.LatFam
 import Pcore.Proofs.LatMono
 set_option linter.unusedSimpArgs false
 /-!
@@ -26,10 +26,12 @@ Full statement / proved / missing
   not accept Float[-Inf,Inf]); `C04_accepts_complete_fails_scalar` (Scalar has Timespan values but rejects Timespan types),
   `C04_accepts_complete_fails_object` (Object has every type value as an instance but rejects Type[..]), `C04_accepts_complete_fails_hash`
   (the detailed type of a hash with non-string keys is a commonType fold).
-  `C04_ptype_of_common` — the first law for ALL values, conditional on the obligation `CommonUB` (commonType is an upper bound within the
-  side conditions of C01): the fold invariant "every element seen so far is an instance of the accumulator", carried by C01;
-* missing: `CommonUB` in full (so the first law for Arrays and Hashes is conditional), the second law for hashes with non-string /
-  empty-string keys;
+  `C04_ptype` — THE FIRST LAW, unconditional, for every value that holds no type value (nested heterogeneous arrays, hashes with any
+  keys, Sensitive, objects, scalars), for the code's setting of the exempt rule: fold invariant "every element seen so far is an instance
+  of the accumulator" + C01 + `C04_common_fam` (commonType is an upper bound on the family `Ty.Fam` of inferred types and stays inside it);
+  `C04_ptype_of_family` — the same for values with type values, conditional on a family on which commonType is an upper bound;
+* missing: the first law for values that hold TYPE values (commonType of two `Type[..]` recurses into arbitrary types: Tuple / Variant
+  merges need transitivity stage 2), the second law for hashes with non-string / empty-string keys;
   `C04_common` for the structural merges (Enum/String/Array/Tuple/Variant …); `C04_generalize`.  All six laws are evaluated on the
   implementation for every generated case.
 -/
@@ -61,13 +63,26 @@ theorem C04_dtype_scalar (cfg : Cfg) (sfh : Bool) (v : Val) (h : Val.Leafy cfg v
 theorem C04_dtype_struct (cfg : Cfg) (sfh : Bool) (v : Val) (h : Val.Structy cfg v) :
     inst cfg sfh (dtype cfg sfh v) v = true := dtype_structy cfg sfh v.w v (Nat.le_refl _) h
 
-/-- first law for ALL values (nested heterogeneous arrays and hashes included), rule off, GIVEN the obligation `CommonUB` on `commonType`
-    (it is an upper bound of its arguments and stays within the side conditions of C01): the fold invariant of `privateReducedType`
-    — "every element seen so far is an instance of the accumulator" — carried through by C01 (soundness), which is exactly where a
-    `commonType` that returns the wrong argument breaks the proof.  `CommonUB` itself is proved only in part (`C04_common_*`). -/
-theorem C04_ptype_of_common (cfg : Cfg) (sfh : Bool) (hl : ∀ s, (cfg.lower s).length = s.length) (U : CommonUB cfg sfh) (v : Val)
-    (ok : v.OK) (tv : Val.TyOK cfg v) : inst cfg sfh (ptype cfg sfh v) v = true :=
-  (ptype_inst cfg sfh hl U v.w v (Nat.le_refl _) ok tv).1
+/-- FIRST LAW, unconditional and unbounded, for both settings of the exempt rule (`sfh = true` is the code): every value that holds no
+    type value — arbitrarily nested, heterogeneous arrays and hashes (any keys), Sensitive, object instances, all scalars — is an
+    instance of its inferred type.  Proof: the fold invariant of `privateReducedType` ("every element seen so far is an instance of the
+    accumulator") carried through by C01 (soundness), with `commonType` shown to be an upper bound on the family `Ty.Fam` of inferred
+    types (`C04_common_fam`) — exactly where a `commonType` that returns the wrong argument, or lets Unit absorb, breaks the proof. -/
+theorem C04_ptype (cfg : Cfg) (sfh : Bool) (hl : ∀ s, (cfg.lower s).length = s.length) (v : Val)
+    (ok : v.OK) (tv : Val.TyOK cfg v) (nt : Val.AllTyp (fun _ => False) v) : inst cfg sfh (ptype cfg sfh v) v = true :=
+  ptype_fam cfg sfh hl v ok tv nt
+
+/-- `commonType` on the family of inferred types: the result stays in the family and accepts both arguments -/
+theorem C04_common_fam (cfg : Cfg) (sfh : Bool) (a b : Ty) (ha : a.Fam) (hb : b.Fam) :
+    (commonType cfg sfh a b).Fam ∧ asg cfg sfh (commonType cfg sfh a b) a = true ∧ asg cfg sfh (commonType cfg sfh a b) b = true :=
+  common_fam cfg sfh _ a b ha hb
+
+/-- the first law for values WITH type values, conditional on a family `G` on which `commonType` is a well-behaved upper bound
+    (`InferFam`; `C04_ptype` is the instance `G = Ty.Fam` without type values) -/
+theorem C04_ptype_of_family (cfg : Cfg) (sfh : Bool) (hl : ∀ s, (cfg.lower s).length = s.length) (G TV : Ty → Prop)
+    (U : InferFam cfg sfh G TV) (v : Val) (ok : v.OK) (tv : Val.TyOK cfg v) (at' : Val.AllTyp TV v) :
+    inst cfg sfh (ptype cfg sfh v) v = true :=
+  (ptype_inst cfg sfh hl G TV U v.w v (Nat.le_refl _) ok tv at').1
 
 /-- third law, from C01: what accepts the detailed type contains the value (rule off, fragment of `C01_sound_partial`) -/
 theorem C04_accepts_sound_partial (cfg : Cfg) (hl : ∀ s, (cfg.lower s).length = s.length) (t : Ty) (v : Val)
@@ -79,13 +94,13 @@ theorem C04_accepts_sound_partial (cfg : Cfg) (hl : ∀ s, (cfg.lower s).length 
 
 /-! ### commonType: the branches that are bounds by themselves -/
 theorem C04_common_unit (cfg : Cfg) (sfh : Bool) (n : Nat) (b : Ty) : commonF cfg sfh (n + 1) .unit b = b := by
-  simp [commonF]
+  simp [commonF, Ty.isUnit]
 
 theorem C04_common_accepts_left (cfg : Cfg) (sfh : Bool) (n : Nat) (a b : Ty) (ha : asg cfg sfh a a = true)
     (hau : a ≠ .unit) (hbu : b ≠ .unit) (h : asg cfg sfh a b = true) :
     asg cfg sfh (commonF cfg sfh (n + 1) a b) a = true ∧ asg cfg sfh (commonF cfg sfh (n + 1) a b) b = true := by
-  have h1 : (match a with | .unit => true | _ => false) = false := by cases a <;> simp; exact absurd rfl hau
-  have h2 : (match b with | .unit => true | _ => false) = false := by cases b <;> simp; exact absurd rfl hbu
+  have h1 : a.isUnit = false := by cases a <;> simp [Ty.isUnit]; exact absurd rfl hau
+  have h2 : b.isUnit = false := by cases b <;> simp [Ty.isUnit]; exact absurd rfl hbu
   simp only [commonF, h1, h2, h, Bool.false_eq_true, if_false, if_true]
   simp [ha]
 
@@ -126,6 +141,13 @@ theorem C04_accepts_complete_fails_object :
   · simp [dtype, ptype, asg, asgRecv, sameNullary]
 
 /-! non-vacuity -/
+example : Val.AllTyp (fun _ => False) (.array [.int 1, .hash [(.int 2, .str "a")], .array []]) := by
+  refine Val.AllTyp.array _ ?_
+  intro x hx; simp at hx
+  rcases hx with rfl | rfl | rfl
+  · constructor
+  · refine Val.AllTyp.hash _ ?_ ?_ <;> (intro e he; simp at he; subst he; constructor)
+  · exact Val.AllTyp.array _ (by intro x hx; cases hx)
 example : Val.Leafy idCfg4 (.sensitive (.typ (.array (.int ⟨0, 5⟩) ⟨1, 2⟩))) := by
   simp [Val.Leafy, Ty.WF, Ty.TF]
 example : Val.Structy idCfg4 (.array [.int 1, .hash [(.str "a", .array [.str "x", .undef]), (.str "b", .undef)]]) := by
